@@ -76,7 +76,41 @@ def _hier_job(ops):
                 n_edges=[n_edges, len(top.edges)], ref=str(ref)[:300], after=str(after)[:300], ops=ops)
 
 
+def _derive_job(kind):
+    """deriving a template (update_template without in_place) must leave the base template exactly as it was"""
+    import copy, warnings
+    warnings.filterwarnings('ignore')
+    from pyrates import OperatorTemplate, NodeTemplate
+    variables = {'x': 'output(1.0)', 'u': 'input(0.0)', 'k': 2.0,
+                 'tau': {'vtype': 'constant', 'dtype': 'float', 'shape': (), 'value': 2.0}}
+    base = OperatorTemplate('base', equations=["x' = (u - k*x)/tau"], variables=variables)
+    snap = (list(base.equations), copy.deepcopy(base.variables))
+    if kind == 'vars':
+        d = base.update_template(name='d', variables={'tau': {'vtype': 'constant', 'dtype': 'float', 'shape': (), 'value': 0.25}})
+    elif kind == 'value':
+        d = base.update_template(name='d', variables={'k': 5.0})
+    elif kind == 'eqs':
+        d = base.update_template(name='d', equations={'replace': {'k': 'g'}}, variables={'g': 3.0})
+    elif kind == 'remove':
+        d = base.update_template(name='d', equations={'replace': {'k*x': 'x'}})
+    else:
+        node = NodeTemplate('n', operators=[base])
+        d = node.update_template(name='n2', operators={base: {'k': 7.0}})
+    after = (list(base.equations), base.variables)
+    return dict(ok=(after[0] == snap[0] and after[1] == snap[1]), before=str(snap), after=str(after), kind=kind)
+
+
 def hierarchy(ctx):
+    from ..pool import run_cases
+    kinds = ['vars', 'value', 'eqs', 'remove', 'node']
+    for kd, o in zip(kinds, run_cases(_derive_job, kinds, timeout=120)):
+        ctx.case(key=['derive', kd]); ctx.replayed += 1
+        if not o.get('ok'):
+            ctx.violation(dict(kind='conformance', what='deriving a template changed its base template', case=kd, observed=o))
+    _hierarchy(ctx)
+
+
+def _hierarchy(ctx):
     from ..pool import run_cases
     seqs = [['collect_edges'], ['get_nodes', 'collect_edges'], ['to_yaml'], ['to_yaml', 'collect_edges'], ['deepcopy', 'to_yaml'],
             ['run'], ['collect_edges', 'run'], ['get_edges', 'get_nodes', 'to_yaml', 'run']]
